@@ -21,7 +21,8 @@ func init() {
 			"(C) chunked framing is forced on the very response that is serialised, before serialisation; " +
 			"(S) the wrappers forward their own status parameter and their own byte slice; the proxy copies status/body/trailers of the received response. " +
 			"(X, second part) for every ResponseWriter implementation WriteHeader(103) followed by WriteHeader(404) is simulated by partial evaluation (field stores of the first call feed the second): the final status must still be forwarded/published, whatever the type of the latch; (R) a retried upload restarts through the refusing rewind (shared with C06.S); (M) no pooled buffers on the response path. " +
-			"(C, proxy side) the stand-alone proxy sets Transfer-Encoding: chunked before WriteHeader(resp.StatusCode) independently of any field of the response; (W) writer types and the response forwarder grow no exported methods beyond their pinned method sets (net/http type-asserts optional interfaces).",
+			"(C, proxy side) the stand-alone proxy sets Transfer-Encoding: chunked before WriteHeader(resp.StatusCode) independently of any field of the response; (W) writer types and the response forwarder grow no exported methods beyond their pinned method sets (net/http type-asserts optional interfaces)." +
+			" (R, second part) what a retry replays is what was sent before: the rewind refuses when the retained prefix may be incomplete and the buffer retains exactly the bytes it handed out (shared with C06.R/B).",
 		Assumptions: []string{
 			"net/http Response.Write / ReadResponse / ReverseProxy preserve status, header values, body bytes and trailers (stdlib behaviour on run-time values is not analysed)",
 			"statuses are classified by the representative values 100,102,103,150,199 (interim) and 101,200,204,301,304,404,500,599 (final); a comparison against any other constant inside a class is not distinguished",
